@@ -275,7 +275,7 @@ enum cc_stat cc_treetable_get_greater_than(CC_TreeTable const * const table, con
     RBNode *n = get_tree_node_by_key(table, key);
     RBNode *s = get_successor_node(table, n);
 
-    if (n && s) {
+    if (n && s != table->sentinel) {
         *out = s->key;
         return CC_OK;
     }
@@ -297,7 +297,7 @@ enum cc_stat cc_treetable_get_lesser_than(CC_TreeTable const * const table, cons
     RBNode *n = get_tree_node_by_key(table, key);
     RBNode *s = get_predecessor_node(table, n);
 
-    if (n && s) {
+    if (n && s != table->sentinel) {
         *out = s->key;
         return CC_OK;
     }
